@@ -802,6 +802,19 @@ theorem stepIntegrate_ok (s : Script α) (smt : SMType) (st : St α) (h : integr
   unfold stepIntegrate
   rcases h2 with h2 | h2 <;> simp [h1, h2, h3, Act.thrown, Res.thrown, log]
 
+theorem R.bind_eq_next {r : R α} {f : St α → R α} {st' : St α} (h : r.bind f = .next st') :
+    ∃ st1, r = .next st1 ∧ f st1 = .next st' := by
+  cases r <;> simp_all [R.bind]
+
+theorem R.code_none {r : R α} (h : r.code = none) : ∃ st, r = .next st := by
+  cases r <;> simp_all [R.code]
+
+/-- the events of a run contain those of the `try` block -/
+theorem integrate_ev_of_body (v : Variant) (s : Script α) :
+    (body v s (st0 s)).st.ev <+: (integrate v s).st.ev := by
+  unfold integrate
+  split <;> rename_i heq <;> simp [heq, List.prefix_append]
+
 end steps
 
 /-! ### a scalar type on which the model computes in the kernel (non-vacuity witnesses) -/
